@@ -7,13 +7,16 @@ use crate::exec::Backend;
 use crate::props::c13::run_once;
 use crate::refmodel::{self, Ev, Fate};
 use crate::with_cell;
-use hpbf::exec::{BcInterpreter, Executor, IrInterpreter};
+use hpbf::exec::{BaseJitCompiler, BcInterpreter, Executor, IrInterpreter};
 
 pub fn run_limited(backend: Backend, code: &str, input: &[u8], bits: u32, level: u32, budget: usize) -> Result<(Vec<Ev>, Option<bool>), String> {
     with_cell!(bits, C, {
         match backend {
             Backend::Ir => Ok(run_once::<C, _>(&IrInterpreter::<C>::create(code, level).map_err(|e| format!("{:?}", e.kind))?, input, Some(budget))),
             Backend::Bc => Ok(run_once::<C, _>(&BcInterpreter::<C>::create(code, level).map_err(|e| format!("{:?}", e.kind))?, input, Some(budget))),
+            // limited + bounds-checked machine code; a code generation fault that escapes both
+            // kills the fuzzer process, which libFuzzer saves as a crash input like any other
+            Backend::Jit => Ok(run_once::<C, _>(&BaseJitCompiler::<C>::create(code, level).map_err(|e| format!("{:?}", e.kind))?, input, Some(budget))),
             _ => Err("backend not run in-process".into()),
         }
     })
@@ -23,7 +26,11 @@ pub fn run_limited(backend: Backend, code: &str, input: &[u8], bits: u32, level:
 /// the back end at levels 0..3 with a generous budget. Returns a description
 /// of the first violation.
 pub fn check_program(backend: Backend, code: &str, input: &[u8], bits: u32) -> Option<String> {
-    let r = refmodel::run(code, input, bits, 20_000);
+    check_program_steps(backend, code, input, bits, 20_000)
+}
+
+pub fn check_program_steps(backend: Backend, code: &str, input: &[u8], bits: u32, step_limit: u64) -> Option<String> {
+    let r = refmodel::run(code, input, bits, step_limit);
     if r.fate != Fate::Halt {
         return None;
     }
